@@ -228,10 +228,11 @@ def vmdk_chain(draw, tier):
         hint_style = draw(st.sampled_from(["plain", "relative", "windows", "unix-abs"]))
         layers.append({"extents": exts, "top_kind": top_kind, "parent_dir": pdir, "hint_style": hint_style,
                        "crlf": draw(st.booleans())})
+    name_style = draw(st.sampled_from(["plain", "plain", "equals", "spaces", "hash"]))
     mode = draw(st.sampled_from(["ok", "ok", "ok", "ok", "ok", "missing", "nameless"]))
     if mode == "nameless" and layers[-1]["top_kind"] != "monolithic":
         mode = "ok"
-    return {"family": "vmdk", "layers": layers, "size": cap * 512, "unit": 512 * 64, "mode": mode}
+    return {"family": "vmdk", "layers": layers, "size": cap * 512, "unit": 512 * 64, "mode": mode, "name_style": name_style}
 
 
 GUIDS = [bhdd.DEFAULT_TOP, "1a2b3c4d-0000-4000-8000-00000000000a", "1a2b3c4d-0000-4000-8000-00000000000b",
@@ -267,7 +268,9 @@ def hdd_chain(draw, tier):
     if path_style == "dangling" and depth < 2:
         path_style = "relative"
     return {"family": "hdd", "storages": storages, "chain": chain, "side": side, "write_top_guid": draw(st.booleans()),
-            "shuffle": draw(st.booleans()), "path_style": path_style, "size": start * 512, "unit": 512 * 16}
+            "shuffle": draw(st.booleans()), "path_style": path_style, "size": start * 512, "unit": 512 * 16,
+            # the process's working directory holds files with the very names the descriptor uses (another VM's disk)
+            "cwd_decoy": draw(st.sampled_from([False, False, True]))}
 
 
 @st.composite
@@ -483,6 +486,9 @@ def _close_vhdx(v):
         v = getattr(v, "parent", None)
 
 
+_NAME = ["layer"]  # file-name stem of the VMDK chain being built (parent hints may contain '=' or spaces)
+
+
 def _vmdk_layer_files(d, i, ls, parent_ref, size_sectors):
     """Write one VMDK layer into dir d/<dir>.  Returns (path of the file to open, layer Extents)."""
     exts = ls["extents"]
@@ -494,21 +500,21 @@ def _vmdk_layer_files(d, i, ls, parent_ref, size_sectors):
         if ls["top_kind"] == "monolithic":
             e["descriptor"] = bvmdk.descriptor_text({
                 "cid": "aabbccdd", "parent_cid": "11223344" if parent_ref else "ffffffff", "create_type": "monolithicSparse",
-                "parent_hint": parent_ref, "extents": [{"sectors": e["capacity"], "type": "SPARSE", "file": f"layer{i}.vmdk"}],
+                "parent_hint": parent_ref, "extents": [{"sectors": e["capacity"], "type": "SPARSE", "file": f"{_NAME[0]}{i}.vmdk"}],
                 "crlf": ls["crlf"]})
         fh, elay, _m = bvmdk.build(e)
         copy_shifted(elay, lay, pos * 512)
-        name = f"layer{i}.vmdk" if ls["top_kind"] == "monolithic" else f"layer{i}-s{j:03d}.vmdk"
+        name = f"{_NAME[0]}{i}.vmdk" if ls["top_kind"] == "monolithic" else f"{_NAME[0]}{i}-s{j:03d}.vmdk"
         fh.write_to(os.path.join(d, name))
         typ = {"kdmv": "SPARSE", "cowd": "VMFSSPARSE", "flat": "FLAT", "sesparse": "SESPARSE"}[e["kind"]]
         ext_lines.append({"sectors": e["capacity"], "type": typ, "file": name, "offset": 0 if typ == "FLAT" else None})
         pos += e["capacity"]
     if ls["top_kind"] == "monolithic":
-        return os.path.join(d, f"layer{i}.vmdk"), lay
+        return os.path.join(d, f"{_NAME[0]}{i}.vmdk"), lay
     text = bvmdk.descriptor_text({
         "cid": "aabbccdd", "parent_cid": "11223344" if parent_ref else "ffffffff", "parent_hint": parent_ref,
         "create_type": "twoGbMaxExtentSparse", "extents": ext_lines, "crlf": ls["crlf"], "ddb": {"ddb.adapterType": "ide"}})
-    p = os.path.join(d, f"layer{i}.vmdk")
+    p = os.path.join(d, f"{_NAME[0]}{i}.vmdk")
     with open(p, "w", newline="") as f:
         f.write(text)
     return p, lay
@@ -518,6 +524,7 @@ def run_vmdk(spec, out):
     from dissect.hypervisor.disk.vmdk import VMDK
 
     d = scratch_dir()
+    _NAME[0] = {"equals": "base=golden ", "spaces": "my disk (1) ", "hash": "snap #"}.get(spec.get("name_style"), "layer")
     try:
         n = len(spec["layers"])
         lays = []
@@ -533,7 +540,7 @@ def run_vmdk(spec, out):
             os.makedirs(dd, exist_ok=True)
             parent_ref = None
             if i > 0:
-                pname = f"layer{i - 1}.vmdk"
+                pname = f"{_NAME[0]}{i - 1}.vmdk"
                 style = ls["hint_style"]
                 if dirs[i - 1] == dirs[i]:
                     parent_ref = {"plain": pname, "relative": pname, "windows": f"C:\\vms\\{dirs[i - 1]}\\{pname}",
@@ -545,7 +552,7 @@ def run_vmdk(spec, out):
             lays.insert(0, lay)
             top_path = p
         if spec["mode"] == "missing":
-            os.remove(os.path.join(d, dirs[n - 2], f"layer{n - 2}.vmdk"))
+            os.remove(os.path.join(d, dirs[n - 2], f"{_NAME[0]}{n - 2}.vmdk"))
         if spec["mode"] == "nameless":
             import io
 
@@ -586,10 +593,17 @@ def _close_vmdk(v, depth=0):
     _close_vmdk(getattr(v, "parent", None), depth + 1)
 
 
+def c12_base_hds():
+    from hv.props import c12
+
+    return c12.base_hds(2)
+
+
 def run_hdd(spec, out):
     from dissect.hypervisor.disk.hdd import HDD
 
     d = scratch_dir()
+    restore_cwd = None
     try:
         root = os.path.join(d, "vm.pvm", "disk.hdd")
         os.makedirs(root)
@@ -653,6 +667,16 @@ def run_hdd(spec, out):
             desc["shuffle"] = list(reversed(range(len(desc_storages))))
         with open(os.path.join(root, "DiskDescriptor.xml"), "w") as f:
             f.write(bhdd.descriptor_xml(desc))
+        if spec.get("cwd_decoy"):
+            decoy = os.path.join(d, "elsewhere", "other.hdd")
+            os.makedirs(decoy)
+            for st_ in desc_storages:
+                for im in st_["images"]:
+                    with open(os.path.join(decoy, os.path.basename(im["file"])), "wb") as f:
+                        f.write(c12_base_hds())
+            restore_cwd = os.getcwd()
+            os.chdir(decoy)
+            out.cls("hdd-cwd-decoy")
         hdd, err = lib(HDD, Path(root))
         if err:
             out.fail(err.sig("hdd-open"), f"HDD() raised {err.describe()}")
@@ -684,6 +708,8 @@ def run_hdd(spec, out):
                         "hdd-chain" if guid is None else "hdd-chain-guid")
             _close_hdd(stream)
     finally:
+        if restore_cwd:
+            os.chdir(restore_cwd)
         shutil.rmtree(d, ignore_errors=True)
 
 
